@@ -19,6 +19,84 @@
 
 namespace vh
 {
+    // A user-defined flow operator, written against the library's extension point (a class derived
+    // from flow_operator + a specialisation of detail::flow_operator_impl, which the graph
+    // implementation befriends): a "router" that installs a GIVEN receiver table - any forest / DAG,
+    // not only those that steepest descent on a grid can produce - in the way the library's own
+    // routers do (counts, receivers, distances, weights, donors in node order, then the library's
+    // traversal-order algorithms).  Used to replay the graphs that TLC enumerates for the Orders /
+    // Sweeps models through the real compute_dfs_* / compute_bfs_* / accumulate / basins / kernels.
+    template <fs::flow_direction D>
+    class inject_router : public fs::flow_operator
+    {
+    public:
+        inline std::string name() const noexcept override
+        {
+            return "inject_router";
+        }
+        static constexpr bool graph_updated = true;
+        static constexpr fs::flow_direction out_flowdir = D;
+
+        std::vector<std::vector<long long>> rec;   // per node: receivers (a terminal node lists itself)
+        std::vector<std::vector<long long>> w8;    // per node: weights in units of 2^-8
+        std::vector<long long> selfdon;            // per node: 1 = a terminal node registered as its own donor
+                                                   // (what single_flow_router does for pits)
+    };
+    using inject_single = inject_router<fs::flow_direction::single>;
+    using inject_multi = inject_router<fs::flow_direction::multi>;
+}
+
+namespace fastscapelib
+{
+    namespace detail
+    {
+        template <class FG, fastscapelib::flow_direction D>
+        class flow_operator_impl<FG, vh::inject_router<D>, flow_graph_fixed_array_tag>
+            : public flow_operator_impl_base<FG, vh::inject_router<D>>
+        {
+        public:
+            using base_type = flow_operator_impl_base<FG, vh::inject_router<D>>;
+            using data_array_type = typename FG::data_array_type;
+            using size_type = typename FG::size_type;
+            using thread_pool_type = thread_pool<size_type>;
+
+            flow_operator_impl(std::shared_ptr<vh::inject_router<D>> ptr)
+                : base_type(std::move(ptr)){};
+
+            void apply(FG& graph_impl, data_array_type& /*elevation*/, thread_pool_type& /*pool*/)
+            {
+                const auto& op = *this->m_op_ptr;
+                const size_type n = graph_impl.size();
+                graph_impl.m_donors_count.fill(0);
+                for (size_type i = 0; i < n; ++i)
+                {
+                    const auto& r = op.rec.at(i);
+                    graph_impl.m_receivers_count(i) = r.size();
+                    for (size_type k = 0; k < r.size(); ++k)
+                    {
+                        const size_type j = static_cast<size_type>(r[k]);
+                        graph_impl.m_receivers(i, k) = j;
+                        graph_impl.m_receivers_distance(i, k) = (j == i) ? 0. : 1.;
+                        graph_impl.m_receivers_weight(i, k)
+                            = (j == i && D != fastscapelib::flow_direction::single)
+                                  ? 0.
+                                  : static_cast<double>(op.w8.at(i).at(k)) / 256.;
+                        if (j != i || op.selfdon.at(i))
+                            graph_impl.m_donors(j, graph_impl.m_donors_count(j)++) = i;
+                    }
+                }
+                if (D == fastscapelib::flow_direction::single)
+                    graph_impl.compute_dfs_indices_bottomup();
+                else
+                    graph_impl.compute_dfs_indices_topdown();
+                graph_impl.compute_bfs_indices_bottomup();
+            }
+        };
+    }
+}
+
+namespace vh
+{
     // run-time description of one operator; the shared_ptr is kept so that parameters can be
     // changed between updates exactly as a user holding the operator object would
     struct op_holder
@@ -29,6 +107,8 @@ namespace vh
         std::shared_ptr<fs::pflood_sink_resolver> pflood;
         std::shared_ptr<fs::mst_sink_resolver> mst;
         std::shared_ptr<fs::flow_snapshot> snap;
+        std::shared_ptr<inject_single> inj1;
+        std::shared_ptr<inject_multi> injm;
     };
 
     inline double pcode_to_exp(long long pc)
@@ -60,6 +140,27 @@ namespace vh
         else if (h.kind == "snap")
             h.snap = std::make_shared<fs::flow_snapshot>(
                 o["name"].as_str(), o.get_int("sg", 1) != 0, o.get_int("se", 0) != 0);
+        else if (h.kind == "inject")
+        {
+            auto fill = [&](auto& p)
+            {
+                for (auto& e : o["rec"].a)
+                    p->rec.push_back(e->as_ints());
+                for (auto& e : o["w8"].a)
+                    p->w8.push_back(e->as_ints());
+                p->selfdon = o["sd"].as_ints();
+            };
+            if (o.get_str("d", "single") == "single")
+            {
+                h.inj1 = std::make_shared<inject_single>();
+                fill(h.inj1);
+            }
+            else
+            {
+                h.injm = std::make_shared<inject_multi>();
+                fill(h.injm);
+            }
+        }
         else
             throw std::runtime_error("unknown operator kind " + h.kind);
         return h;
@@ -86,6 +187,10 @@ namespace fastscapelib
                 seq.add_operator(h.mst);
             else if (h.snap)
                 seq.add_operator(h.snap);
+            else if (h.inj1)
+                seq.add_operator(h.inj1);
+            else if (h.injm)
+                seq.add_operator(h.injm);
         }
         return seq;
     }
